@@ -105,7 +105,9 @@ func walInputs(n *Node, h int64) (count int, markerFound bool, lastComplete bool
 	marker := fmt.Sprintf("#HEIGHT: %d", h)
 	start := -1
 	for i, l := range lines {
-		if l == marker {
+		if l == marker && start < 0 {
+			// the FIRST marker of the height: a node that starts through SwitchToConsensus appends
+			// another marker of the same height on every start, and what was logged before it still counts
 			start = i
 		}
 	}
